@@ -7,6 +7,9 @@ WORLDS = {
     "uni(xq)": lambda: catalog.uni_xq_world(),
     "aave": lambda: catalog.aave_world(),
     "deribit": lambda: catalog.deribit_world(),
+    "gmx1": lambda: catalog.gmx1_world(),
+    "gmx2(mild,small)": lambda: catalog.gmx2_world(kind="mild", impact="small"),
+    "gmx2(strong,large)": lambda: catalog.gmx2_world(kind="strong", impact="large"),
     "squeeth(eq)": lambda: catalog.squeeth_world("eq"),
     "squeeth(ne)": lambda: catalog.squeeth_world("ne"),
 }
